@@ -28,8 +28,9 @@ class RaiseClause:
 
 class LoopSpec:
     def __init__(self, ordinal, index=None, invariants=None, modifies=None, variant=None,
-                 unroll=None, elem_ty=None):
+                 unroll=None, elem_ty=None, summarize=False):
         self.elem_ty = elem_ty              # element type of a comprehension's result
+        self.summarize = summarize          # modular cut: body/continuation explored once
         self.ordinal = ordinal
         self.index = index                  # name of ghost index for `for` loops
         self.invariants = invariants or []  # list[Clause]
@@ -58,6 +59,8 @@ class Contract:
         self.ghost_at = []        # (predicate on ast node, python hook) ghost statements
         self.pure = False
         self.entry_assume = []    # spec exprs assumed at entry in addition to requires (typing)
+        self.abstract_ = []       # (statement text prefix, reason): statements not modelled
+        self.checks_ = []         # (statement text prefix, Clause): assertion before a statement
         self.ghost_entry_ = []    # (ghost name, spec expr): ghost assignments at function entry
         self.ret_cases = None     # [(label, guard spec expr over the pre-state, Ty)]
 
@@ -68,6 +71,18 @@ class Contract:
 
     def returns(self, ty):
         self.ret = ty
+        return self
+
+    def abstract(self, stmt_prefix, reason):
+        """A statement that is deliberately not modelled (listed in the evidence)."""
+        self.abstract_.append((' '.join(stmt_prefix.split()), reason))
+        return self
+
+    def check_before(self, stmt_prefix, label, src, props=None):
+        """Proof obligation at a program point: `src` must hold whenever a statement whose text
+        starts with `stmt_prefix` is about to execute."""
+        self.checks_.append((' '.join(stmt_prefix.split()),
+                             Clause(label, src, props or self.props)))
         return self
 
     def ghost_entry(self, name, src):
@@ -104,10 +119,10 @@ class Contract:
         return self
 
     def loop(self, ordinal, index=None, invariants=None, modifies=None, variant=None,
-             unroll=None, props=None, elem_ty=None):
+             unroll=None, props=None, elem_ty=None, summarize=False):
         invs = [Clause(l, s, props or self.props) for l, s in (invariants or [])]
         self.loops[ordinal] = LoopSpec(ordinal, index, invs, list(modifies or []), variant,
-                                       unroll, elem_ty)
+                                       unroll, elem_ty, summarize)
         return self
 
     def note(self, text):
